@@ -35,6 +35,8 @@ n = 0
 for rd in sorted(glob.glob(os.path.join(HERE, "refactors", "*"))):
     rid = os.path.basename(rd)
     meta = json.load(open(os.path.join(rd, "meta.json")))
+    if meta.get("residual_false_alarm"):
+        print("skip", rid, "(recorded residual false alarm: %s)" % meta["residual_false_alarm"][:80]); continue
     files = parse(open(os.path.join(rd, "patch.diff")).read())
     if files is None:
         print("skip", rid, "(adds or removes a file)"); continue
